@@ -24,6 +24,7 @@ REVERTS = [
     ('F24-stale-header-after-locking', 'f2ccf73', {'C05': ['S05-9:header-fresh:packet::key::secret']}),
     ('F25-builder-default-version', 'e95cd5e', {'C07': ['builder:version-default-consistent']}),
     ('F26-streaming-hasher-trailing-cr', 'c51f93b', {'C14': ['hasher:done-emits-nothing'], 'C06': ['hasher:done-emits-nothing']}),
+    ('F27-cfb-encryptor-early-eof', '84e200d', {'C09': ['S09-6:zero-means-end:crypto::sym::encryptor']}),
     ('F23-boolean-subpackets', '1b5ba7a', {'C05': ['S05-8:lossless-bool'], 'C02': ['S05-8:lossless-bool']}),
 ]
 tests = [dict(name='revert:' + n, kind='revert-fix', commit=c, expect=e) for n, c, e in REVERTS]
